@@ -35,6 +35,7 @@ var (
 	ErrShiftArity                    = errors.New("SHIFT requires two parameters, like SHIFT(SUM(b), '-1h')")
 	ErrCrosshiftArity                = errors.New("CROSSHIFT requires three parameters, like CROSSHIFT(SUM(b), '1h', '-1d')")
 	ErrCrosshiftZeroCutoffOrInterval = errors.New("CROSSHIFT cutoff and interval must be non-zero")
+	ErrCrosshiftTooManyFields        = fmt.Errorf("CROSSHIFT cutoff divided by interval must not exceed %d", maxCrosshiftFields)
 	ErrCROSSTABArity                 = errors.New("CROSSTAB requires at least one argument")
 	ErrCROSSTABUnique                = errors.New("Only one CROSSTAB statement allowed per query")
 	ErrAggregateArity                = errors.New("Aggregate functions take only one parameter, like SUM(b)")
@@ -46,6 +47,10 @@ var (
 	ErrNotSelect                     = errors.New("Only SELECT statements are supported")
 	ErrUnterminatedIdentifier        = errors.New("Unterminated backtick-quoted identifier")
 )
+
+// maxCrosshiftFields limits the number of fields that a single CROSSHIFT can
+// expand to.
+const maxCrosshiftFields = 1000
 
 var aggregateFuncs = map[string]func(interface{}) expr.Expr{
 	"SUM":   expr.SUM,
@@ -506,6 +511,9 @@ func (s *selectClause) addCrosshiftExpr(fields core.Fields, e *sqlparser.FuncExp
 	limit := cutoff
 	if cutoff < 0 {
 		limit = cutoff * -1
+	}
+	if limit/interval > maxCrosshiftFields {
+		return nil, ErrCrosshiftTooManyFields
 	}
 
 	var err error
